@@ -136,9 +136,14 @@ def finish(ctx: Ctx, t0: float, selftest=None, only_key=None, write_evidence=Tru
              if selftest else ''))
     if violations:
         return 1
+    if selftest is not None and not st_fail:
+        for s in selftest.get('skipped_list', []):
+            print(f'NOTE self-test seed skipped (does not apply to this tree): {s}')
     if st_fail:
         for s in selftest.get('not_fired', []):
             print(f'ANALYSIS-ERROR self-test seed not detected: {s}')
+        for s in selftest.get('skipped_list', []):
+            print(f'NOTE self-test seed skipped (does not apply to this tree): {s}')
         for s in selftest.get('false_alarm', []):
             print(f'ANALYSIS-ERROR self-test control variant raised an alarm: {s}')
         return 2
